@@ -299,31 +299,22 @@ fn pure_chain(t: &T) -> bool {
     flat(t, &mut v);
     v.iter().all(|x| is_join(x) || matches!(x, T::Dip(f) if pure_chain(f)))
 }
-/// how JoinPat treats the term: "nonchain" (a dipped function that contains a join without being a
-/// chain, or whose inverse is unbalanced: still flattened) / "segment-order" name the open findings' classes,
-/// "chain" = a chain of joins (the engine returns the middle parts as one-row lists: inputs with
-/// scalar middle parts are outside the calibrated domain; chains are covered by the directed family)
+/// "chain" = somewhere a bare `⊙⊂` link precedes a join: the engine gives that part back as a one-row
+/// list, so inputs whose part is a row (what the block guards admit) are outside the calibrated domain;
+/// chains are covered by the directed family.  Everything else around a join is an ordinary term.
 pub fn join_class(t: &T) -> Option<&'static str> {
     let mut v = Vec::new();
     flat(t, &mut v);
-    let mut found: Option<&'static str> = None;
     if let Some(j) = v.iter().rposition(|x| is_join(x)) {
-        let prefix = &v[..j];
-        for (i, x) in prefix.iter().enumerate() {
+        for x in &v[..j] {
             if let T::Dip(f) = x {
-                if contains_join(f) || net(f) != 0 {
-                    found = Some(if pure_chain(f) { found.unwrap_or("chain") } else { "nonchain" });
-                    if found == Some("nonchain") {
-                        return found;
-                    }
-                } else if prefix[..i].iter().any(|y| !matches!(y, T::Dip(_))) && prefix[i + 1..].iter().any(|y| !matches!(y, T::Dip(_))) && found.is_none() {
-                    found = Some("segment-order");
+                let mut w = Vec::new();
+                flat(f, &mut w);
+                if w.len() == 1 && is_join(w[0]) {
+                    return Some("chain");
                 }
             }
         }
-    }
-    if found.is_some() {
-        return found;
     }
     for x in v {
         let sub = match x {
@@ -842,9 +833,11 @@ fn search_term(t: &T, seed: u64, per: usize, st: &mut Stats) {
 }
 
 /// Directed families around un-join (JoinPat): functions written literally with the inputs given as
-/// uiua source (pushed by running it).  The engine's chain inverse returns the middle parts of a
-/// chain of joins as one-row lists, so the inputs use that convention and bypass the block guards.
-/// class: "regression" = repaired or intended behaviour that must hold; the others name open findings.
+/// uiua source (pushed by running it).  The engine's convention (un.rs JoinPat invert_inner, since
+/// 2e21ff6): a bare `⊙⊂` link of a chain of joins gives its part back as a one-row list, every other
+/// dipped piece is inverted as it is (so its first part comes back as a row).  The inputs follow that
+/// convention and bypass the block guards.  Every entry is a regression: the classes name the repaired
+/// findings (join-dip: 8f54207; nonchain: 2e21ff6; segment-order: 6d27c00).
 const DIRECTED: &[(&str, &str, &str)] = &[
     ("regression:join-dip", "⊂⊙¯", "3 [¯4]"),
     ("regression:join-dip", "⊂⊙(-2)", "3 [1]"),
@@ -852,17 +845,17 @@ const DIRECTED: &[(&str, &str, &str)] = &[
     ("regression:join-dip", "⊂¯⊙¯", "3 [4]"),
     ("regression:join-dip", "⊂⊙(+1¯)", "3 [4 5]"),
     ("regression:join-chain", "⊂⊙⊂", "1 [2] [3 4]"),
-    ("regression:join-chain", "⊂⊙(⊂⊙¯)", "1 [2] [3 4]"),
+    ("regression:join-chain", "⊂⊙(⊂⊙¯)", "1 2 [3 4]"),
     ("regression:join-chain", "⊂⊙⊂⊙⊙¯", "1 [2] [3 4]"),
     ("regression:join-prefix", "⊂+1¯", "3 [4]"),
     ("regression:join-prefix", "⊂¬⊙¯+1", "3 [4]"),
-    ("nonchain", "⊂⊙(¯⊂)", "1 [2] [3 4]"),
-    ("nonchain", "⊂⊙(⊂¯)", "1 [2] [3 4]"),
-    ("nonchain", "⊂⊙(⇌⊂)", "1 [2] [3 4]"),
-    ("nonchain", "⊂⊙(⊂⊙⊂)", "1 [2] [3] [4 5]"),
-    ("nonchain", "⊂⊙⊟", "[1 2] [3 4] [5 6]"),
-    ("segment-order", "⊂+1⊙¯¯", "3 [4]"),
-    ("segment-order", "⊂-2⊙⇌¯", "3 [4 5]"),
+    ("regression:nonchain", "⊂⊙(¯⊂)", "1 2 [3 4]"),
+    ("regression:nonchain", "⊂⊙(⊂¯)", "1 2 [3 4]"),
+    ("regression:nonchain", "⊂⊙(⇌⊂)", "1 2 [3 4]"),
+    ("regression:nonchain", "⊂⊙(⊂⊙⊂)", "1 2 [3] [4 5]"),
+    ("regression:nonchain", "⊂⊙⊟", "[1 2] [3 4] [5 6]"),
+    ("regression:segment-order", "⊂+1⊙¯¯", "3 [4]"),
+    ("regression:segment-order", "⊂-2⊙⇌¯", "3 [4 5]"),
 ];
 
 fn search_directed(st: &mut Stats) -> usize {
@@ -1004,6 +997,14 @@ fn main() {
                 let d = 3 + r.below(2);
                 terms.push(gen_term(&mut r, d));
             }
+            // the templates of the repaired un-join findings are validated on every run
+            let blk = |n: &str| T::B(BLOCKS.iter().position(|b| b.name == n).unwrap());
+            terms.push(T::Seq(vec![T::Dip(blk("neg").into()), blk("join")]));
+            terms.push(T::Seq(vec![T::Dip(T::Seq(vec![blk("join"), blk("neg")]).into()), blk("join")]));
+            terms.push(T::Seq(vec![T::Dip(T::Seq(vec![blk("neg"), blk("join")]).into()), blk("join")]));
+            terms.push(T::Seq(vec![T::Dip(T::Seq(vec![blk("join"), blk("reverse")]).into()), blk("join")]));
+            terms.push(T::Seq(vec![blk("neg"), T::Dip(blk("neg").into()), blk("add1"), blk("join")]));
+            terms.push(T::Seq(vec![blk("neg"), T::Dip(blk("reverse").into()), blk("sub2"), blk("join")]));
             let mut out = Vec::new();
             for t in &terms {
                 export_term(t, &mut out);
